@@ -1056,7 +1056,7 @@ theorem step2_of_step {c c' : Cl.Cl} {g g' : Gw.Gw} (st : Step (c, g) (c', g')) 
   | clLearn _ _ _ id name hg hc => exact Step2.clLearn c c' g id name hg hc
   | frame _ _ _ _ hc hg hs => exact Step2.frame c c' g g' hc hg hs hr
 
-theorem newTopicId_regIds' (g g1 : Gw.Gw) (id : UInt16) (h : g.newTopicId = (some id, g1)) : g1.regIds = g.regIds := by
+theorem newTopicId_regIds_of (g g1 : Gw.Gw) (id : UInt16) (h : g.newTopicId = (some id, g1)) : g1.regIds = g.regIds := by
   have := newTopicId_regIds g; rw [h] at this; exact this
 
 /-- a broker message (QoS 1 / 2) on a name without TopicID: reserve (or reuse the reserved ID) and REGISTER -/
